@@ -81,6 +81,15 @@ class Verdict:
     def finish(self):
         os.makedirs(EVID, exist_ok=True)
         cov = self.cov
+        if any(str(r.get('config', '')).startswith('walks:')
+               for r in cov.get('runs', []) if isinstance(r, dict)):
+            cov['exhaustive'] = False
+            cov['exhaustive_note'] = (
+                'the configurations without the "walks:" prefix were '
+                'enumerated completely (every alphabet action from every '
+                'reachable abstract state, state count equal to the '
+                'specification\'s); the "walks:" runs are seeded random '
+                'histories on larger configurations')
         cov.setdefault('exhaustive', True)
         ev = {'property_id': self.pid, 'tier': self.tier, 'seed': seed(),
               'level': self.level, 'coverage': cov,
